@@ -25,13 +25,14 @@ RULE = (
 )
 ASSUMPTIONS = [
     "a bare table name resolves in the host sheet first, then document-wide; over-qualification is not a violation",
-    "labels are text that cannot be mistaken for A1 notation, contain no apostrophes or '::'/':' and row labels are disjoint from "
+    "labels are text that cannot be mistaken for A1 notation, contain no '::'/':' and row labels are disjoint from "
     "column labels within a table (contested readings are not generated)",
     "reference nodes are installed through the table's formula list; the observation is Cell.formula",
 ]
 
-LABELS = ["alpha", "beta", "gamma", "x y", "p+q", "10% off", "a-b", "total", "Q1 2024", "näme", "m&m", "f(x)", "size^2", "a*b", "", "delta", "é"]
-TABLE_NAMES = ["Table 1", "Data", "T", "Sales 2024"]
+LABELS = ["alpha", "beta", "gamma", "x y", "p+q", "10% off", "a-b", "total", "Q1 2024", "näme", "m&m", "f(x)", "size^2", "a*b", "", "delta", "é", "it's", "say \"hi\"",
+          "item #1"]
+TABLE_NAMES = ["Table 1", "Data", "T", "Sales 2024", "Bob's"]
 SHEET_NAMES = ["Sheet 1", "Sheet 2", "Summary"]
 
 
